@@ -34,8 +34,15 @@ type Fetch struct {
 	Path     string // ResponsePath
 	Query    string // the "query" text of the request body as the plan carries it
 	Merged   []int  // MultiEntityFetch: the original fetch ids
+	Entity   bool   // raw fetch: RequiresEntityFetch / RequiresEntityBatchFetch
+	Entries  []Entry // MultiEntityFetch: alias and response path of every merged entry
 	FetchPath []PathElem
 	MergePath []string
+}
+
+type Entry struct {
+	Alias string
+	Path  string
 }
 
 type PathElem struct {
@@ -300,6 +307,7 @@ func dumpTree(n *resolve.FetchTreeNode) (*Tree, error) {
 		switch x := n.Item.Fetch.(type) {
 		case *resolve.SingleFetch:
 			f.Kind = "single"
+			f.Entity = x.RequiresEntityFetch || x.RequiresEntityBatchFetch
 			f.Query = queryOf(x.Input)
 			if f.Query == "" {
 				f.Query = queryOf(staticText(x.InputTemplate))
@@ -317,6 +325,13 @@ func dumpTree(n *resolve.FetchTreeNode) (*Tree, error) {
 			f.Kind = "multi"
 			f.Query = queryOf(staticText(x.Input.Header))
 			f.Merged = append([]int(nil), x.MergedFetchIDs...)
+			for _, en := range x.Input.Entries {
+				p := ""
+				if en.Item != nil {
+					p = en.Item.ResponsePath
+				}
+				f.Entries = append(f.Entries, Entry{Alias: en.Alias, Path: p})
+			}
 		default:
 			return nil, fmt.Errorf("unknown fetch type %T", x)
 		}
